@@ -156,7 +156,7 @@ ScnSet(name) ==
     [] name = "C15_quick"    -> UNION {C15P(S_small(0), TRUE), C15P(S_four(0), FALSE), C15Seq(S_opt2(0), 2)}
     [] name = "C15_thorough" -> UNION {C15P(UNION {S_three2(0), S_fourx(0)}, TRUE), C15Seq(S_noflag3(0), 4), C15Seq(S_opt2(0), 3), C15Seq3(S_opt2(0), 2)}
     [] name = "tiny"         -> C14Of(S_opt2(0), {FALSE})
-    [] name = "wit"          -> UNION {Cls(2), {x \in Leaf : x.wrap = "bare"}, C13Graphs({}, S_opt2(0), {}), C15Seq(S_opt2(0), 1), C14Of(FalsyOf(S_opt2(0)), {FALSE}),
+    [] name = "wit"          -> UNION {Cls(2), {x \in Leaf : x.wrap = "bare"}, C13Graphs({}, UNION {S_opt2(0), FalsyOf(S_opt2(0))}, {}), C15Seq(S_opt2(0), 1), C14Of(FalsyOf(S_opt2(0)), {FALSE}),
                                        C13Graphs(Shapes(1..2, {"plain", "cont"}, 0, FALSE), {}, {}), C15P(Shapes({3}, {"opt"}, 0, FALSE), FALSE)}
     [] name = "par"          -> UNION {C13Graphs(Shapes(1..2, {"plain", "cont"}, 0, FALSE), {}, {}), C14Par(S_opt2(0), {FALSE}), C15Seq(S_opt2(0), 1)}
     [] name = "env"          -> Rng(JsonDeserialize(IOEnv.SCN_FILE))     \* hand-picked scenarios (replays, smoke tests)
